@@ -774,6 +774,12 @@ class ConstructedPayloadDecoderBase(AbstractConstructedPayloadDecoder):
                         'ASN.1 object %s has uninitialized '
                         'components' % asn1Object.__class__.__name__)
 
+                # constraints of constructed types (e.g. WITH COMPONENTS)
+                # are not verified on assignment
+                inconsistency = asn1Object.isInconsistent
+                if inconsistency:
+                    raise inconsistency
+
                 if  namedTypes.hasOpenTypes:
 
                     openTypes = options.get('openTypes', {})
@@ -1002,6 +1008,12 @@ class ConstructedPayloadDecoderBase(AbstractConstructedPayloadDecoder):
                     raise error.PyAsn1Error(
                         'ASN.1 object %s has uninitialized '
                         'components' % asn1Object.__class__.__name__)
+
+                # constraints of constructed types (e.g. WITH COMPONENTS)
+                # are not verified on assignment
+                inconsistency = asn1Object.isInconsistent
+                if inconsistency:
+                    raise inconsistency
 
                 if namedTypes.hasOpenTypes:
 
